@@ -2,9 +2,9 @@
 
 # model .vo files the extraction depends on (relative to coq/)
 MODEL_VO = ['gen/Consts.vo', 'gen/CrcTables.vo', 'model/Bytes.vo', 'model/Codec.vo', 'model/Order.vo', 'model/Crc.vo',
-            'model/Block.vo', 'model/Writer.vo', 'model/WriteLoop.vo', 'spec/Leb128.vo', 'spec/Parse.vo', 'model/Reader.vo', 'model/Verify.vo']
+            'model/Block.vo', 'model/Writer.vo', 'model/WriteLoop.vo', 'spec/Leb128.vo', 'spec/Parse.vo', 'model/Reader.vo', 'model/Verify.vo', 'model/Compress.vo']
 # OCaml modules of the driver, in link order
-OCAML_MODULES = ['common', 'gen', 'enc', 'c16', 'wr', 'c20', 'rd', 'c19', 'c17', 'c12', 'main']
+OCAML_MODULES = ['common', 'gen', 'enc', 'c16', 'wr', 'c20', 'rd', 'c19', 'c17', 'c12', 'c15', 'main']
 C_VARIANTS_SETUP = ('all',)
 EXTRA_BUILDS = []
 COQ_TIMEOUT = 3000
@@ -90,6 +90,12 @@ PROPS = {
         'assumptions': ['damage is confined to one block\'s stored bytes or its 4-byte checksum field (the property\'s quantifier); a damaged length prefix or trailer is outside it',
                         'PARTIAL: T12c_statement (bursts <= 32 bits, double flips) is stated, not proved; every such pattern generated by engine c12 is checked on the real mtbl_verify and a verifying reader'],
         'explanation': 'T12b: the verifying reader stops on any field/CRC mismatch whichever operation loads the block; mtbl_verify says OK iff every field matches; T12d: every odd-weight error is detected (parity of the CRC-32C register). Real mtbl_verify and a verify_checksums reader (iteration, get, seek, get_prefix, get_range) on damaged data / last-data / index blocks.',
+    },
+    'C15': {
+        'engines': [{'name': 'c15', 'timeout_quick': 600, 'timeout_thorough': 7200}],
+        'trusted_base': ['zlib, lz4, zstd, snappy: oracles - their inverse property and output bounds are documented contracts, not modelled'],
+        'assumptions': ['PARTIAL by nature: the theorems cover mtbl\'s own wrapper logic (names, level clamping, LZ4 prefix); "never aborts / round-trips" for every buffer additionally needs the library contracts and is exercised, in forked children, on every length 0..64 x four contents x 5 algorithms and all level classes, and on random structured buffers'],
+        'explanation': 'T15b: names round-trip, from_str = case-insensitive table membership, unknown names refused (tables regenerated from compression.c); T15a_levels_partial: the level passed to zlib/lz4hc/zstd is in range for every requested level; LZ4 length prefix round trip. Engine c15: forked round trips, outcome must be OK or a reported compress failure, never an abort or a mismatch.',
     },
     'C17': {
         'engines': [{'name': 'c17', 'timeout_quick': 600, 'timeout_thorough': 7200}],
